@@ -107,6 +107,14 @@ class SimSocket(object):
         self.tx.inflight += take
         return len(take)
 
+    def sendall(self, data):
+        ''' socket.sendall on a non-blocking socket: writes what fits, then raises once the pipe is full (the
+        caller cannot tell how much went out). '''
+        data = bytes(data)
+        while data:
+            sent = self.send(data)
+            data = data[sent:]
+
     def shutdown(self, _how):
         if self.closed:
             raise OSError(9, 'Bad file descriptor')
